@@ -480,7 +480,17 @@ def header_hash(eng, st, fr, args, ins):
     nb = tuple((n & ((1 << 64) - 1)).to_bytes(8, "big")) if not is_sym(n) else eng.unpack(z3.Extract(63, 0, n) if n.size() > 64 else n, 8)
     tb = tuple(tm.to_bytes(8, "big")) if not is_sym(tm) else eng.unpack(tm, 8)
     K = eng.keccak_uf(80)
-    term = K(eng.pack(tuple(parent) + tuple(root) + nb + tb))
+    arg = eng.pack(tuple(parent) + tuple(root) + nb + tb)
+    # block hashes are collision-free: two headers with the same hash have the same (parent, root, number, time).  The code
+    # under check compares block hashes with ==, so this is asserted as an axiom over the headers hashed in this run.
+    seen = eng.__dict__.setdefault("_header_hash_args", [])
+    if is_sym(arg) and not any(arg.get_id() == q.get_id() for q in seen):
+        for q in seen:
+            eng._facts.append(z3.Implies(K(q) == K(arg), q == arg))
+        seen.append(arg)
+    elif not is_sym(arg):
+        pass
+    term = K(arg)
     return eng.unpack(term, 32)
 
 
